@@ -3,6 +3,10 @@
 import json, subprocess
 
 CHECKS = {
+ "C14": dict(level="fault_enumeration", design="§3 C14",
+   technique="deviation-bounded exhaustive exploration of lifecycle histories (environment events, stale reads, a failure at every individual API write / provider call) on the real lifecycle controller",
+   text="NodeClaims created by the real provisioner (plain, startup taint, requested extended resource, template taint) are driven through the real lifecycle controller for 6-7 rounds; each round is one environment event from a finite menu, then one Reconcile handed any NodeClaim version not older than the last one given. All histories with <=1 (quick) / <=2 (thorough) deviations from the happy path (non-default event, stale version, a failed API write or provider call incl. capacity errors) are enumerated. At the instant of every provider Create and every NodeClaim write the oracle checks: <=1 successful Create per NodeClaim without a restart, finalizer present at Create, each condition becomes True only with its observable preconditions, capacity errors delete the NodeClaim.",
+   note="Trusted: fake API server; the menu of environment events; reads never fail (the property quantifies over writes and provider calls). Condition regressions under stale reads are counted, not judged (the statement constrains when conditions become true)."),
  "C13": dict(level="exploration", design="§3 C13",
    technique="exhaustive enumeration of the requirement closure (serialization) and of scheduler worlds / validated NodePool requirement atoms (whole path), compared with the label-set oracle at the API create",
    text="(a) Every requirement reachable by intersecting up to three atoms of the operator/value/bound alphabet is serialized by the real code and re-evaluated by the label-set oracle on an exact witness universe. (b) For the C01 worlds and for every single-requirement NodePool on a custom / provider key that the real RuntimeValidate accepts (x pods constraining that key, x both minValues policies) the NodeClaim observed at the API create is compared key by key with the scheduler's in-memory requirements, its instance-type list with the options and minValues floors, its requests with pods plus least daemon overhead, its labels/taints/hash with the template; a crash of the process is a violation.",
